@@ -23,6 +23,7 @@ type ctxModel struct {
 	shmList  []string
 	shmDict  map[string]bool
 	defaults []string
+	regList  []string // items appended to regsrc.lst
 	shmOK    bool // shm already imported
 	hlpOK    bool // hlp (and through it cfg) already imported
 }
@@ -124,6 +125,9 @@ func (m *ctxModel) write(loc string, v int) {
 		m.defaults = append(m.defaults, val)
 	case "print.capture", "print.fault":
 		m.vals["print.capture"] = val + "\n" // a fresh capture object holding exactly this print
+	case "regsrc.val":
+		m.vals[loc] = val
+		m.regList = append(m.regList, val)
 	case "type.subclasses":
 		// no effect on what is visible from other contexts' classes
 	case "type.int", "type.list", "type.exc":
@@ -203,6 +207,12 @@ func (m *ctxModel) read(loc string) string {
 		return q("not-captured")
 	case "type.subclasses":
 		return "[]"
+	case "regsrc.val":
+		v := "rs"
+		if w, ok := m.vals[loc]; ok {
+			v = w
+		}
+		return fmt.Sprintf("(%s,%s)", q(v), qlist(m.regList))
 	case "nested.cfg":
 		if !m.importHlp() {
 			return "\"exc\" \"ImportError\""
